@@ -150,6 +150,36 @@ def main():
             except Exception as e:  # noqa
                 if ok0:
                     em.violation("validate=0 parse raised %r" % e, {"frame": g.hex()}, repr(e))
+    # frames whose checksum IS 000000 (header+payload divisible by the generator) and damage that makes the remainder of
+    # header+payload vanish: "no remainder" must not be read as "nothing to check"
+    for f in frames[: (10 if thorough else 5)]:
+        body = f[:-3]
+        if len(body) < 9:
+            continue
+        z = body[:-3] + gen.crc24q_ref(body[:-3]).to_bytes(3, "big")          # last three payload bytes := CRC of what precedes
+        zf = z + b"\x00\x00\x00"                                             # a VALID frame with checksum 000000
+        ndet += 1
+        if gen.crc24q_ref(z) != 0 or rejected(zf) and False:
+            pass
+        try:
+            RTCMReader.parse(zf, validate=1)
+        except RTCMParseError:
+            em.violation("a valid frame whose checksum is 000000 is rejected", {"frame": zf.hex(), "bits": []}, {})
+        except Exception:  # noqa  (the altered payload may not decode: not the CRC gate's business)
+            pass
+        nbz = len(zf) * 8
+        for ps in ([nbz - 1], [nbz - 24], [nbz - 9, nbz - 2], [nbz - 1, nbz - 2, nbz - 3], [nbz - 24, nbz - 1] + [nbz - 5, nbz - 13]):
+            ndet += 1
+            if not rejected(flip(zf, ps)):
+                em.violation("damage confined to the checksum field of a frame whose correct checksum is 000000 is accepted", {"frame": zf.hex(), "bits": ps}, {})
+        # the original frame with its last three payload bytes overwritten that way: a burst of at most 24 bits
+        g = z + f[-3:]
+        if g != f:
+            ndet += 1
+            bits = [i for i in range(len(f) * 8) if (f[i // 8] ^ g[i // 8]) >> (7 - i % 8) & 1]
+            if not rejected(g):
+                em.violation("an error burst of at most 24 bits that makes header+payload divisible by the generator is accepted", {"frame": f.hex(), "bits": bits}, {})
+        em.count("damage.zero_remainder")
     # histories: the SAME damaged bytes looked at with validation off first (a diagnostic look at a frame that failed), through the
     # reader or the static parser, then parsed with validation on -- and the other way round: the verdict with validation on must not
     # depend on what was parsed before
